@@ -32,7 +32,8 @@ CONSTANTS Ident,      \* "kitty" | "konsole" | "forced" (other terminal, KittyIm
           WithBad,    \* explore RedrawBad
           WithInv,    \* explore redraws after invalidating one of the widgets shown
           Dyn,        \* explore NewWidget / DropWidget (otherwise all three widgets live from the start)
-          WithDC      \* explore direct user calls of clear_images([widget], now=...) between redraws
+          WithDC,     \* explore direct user calls of clear_images([widget], now=...) between redraws
+          WithWinch   \* explore SIGWINCH pending: frames dropped by urwid until the resize is handled
 
 ScrW == 8
 ScrH == 5
@@ -43,8 +44,8 @@ NatW(w) == IF w = 2 THEN 2 ELSE 4
 NatH(w) == IF w = 1 THEN 3 ELSE 2
 MaxStrip == 3
 
-VARIABLES T, cv, cdis, wdis, scr, started, last, ulast, same, wdt, nxt, free, ok, taint, dc, out
-vars == <<T, cv, cdis, wdis, scr, started, last, ulast, same, wdt, nxt, free, ok, taint, dc, out>>
+VARIABLES T, cv, cdis, wdis, scr, started, last, ulast, same, wdt, nxt, free, ok, taint, dc, rs, out
+vars == <<T, cv, cdis, wdis, scr, started, last, ulast, same, wdt, nxt, free, ok, taint, dc, rs, out>>
 
 (* ------------------------------------------------------------- layouts *)
 
@@ -236,23 +237,23 @@ Init ==
                                            z |-> IF StyleOf(w) = "kitty" THEN ZSeq[w] ELSE 0]]
                  /\ nxt = IF Style3 = "kitty" THEN -2 ELSE 2
   /\ free = {}
-  /\ ok = FALSE /\ taint = FALSE /\ dc = FALSE
+  /\ ok = FALSE /\ taint = FALSE /\ dc = FALSE /\ rs = FALSE
   /\ out = [op |-> "init", arg |-> NoneP, toks |-> <<>>, res |-> ""]
 
 ClearImages(n) == IF Supported(Ident) THEN [i \in 1..n |-> KTok(XDelAll)] ELSE <<>>
 BumpN(d, n) == IF Supported(Ident) THEN (d + n) % 3 ELSE d
 
 Start ==
-  /\ ~started /\ ~dc
+  /\ ~started /\ ~dc /\ ~rs
   /\ started' = TRUE
   /\ T' = Fold(T, ClearImages(1), GFX, 1)
   /\ cdis' = BumpN(cdis, 1)
   /\ ok' = FALSE
   /\ out' = [op |-> "start", arg |-> NoneP, toks |-> ClearImages(1), res |-> ""]
-  /\ UNCHANGED <<cv, wdis, scr, last, ulast, same, wdt, nxt, free, taint, dc>>
+  /\ UNCHANGED <<cv, wdis, scr, last, ulast, same, wdt, nxt, free, taint, dc, rs>>
 
 Stop ==
-  /\ started /\ ~dc
+  /\ started /\ ~dc /\ ~rs
   /\ started' = FALSE
   /\ T' = Fold(T, ClearImages(2), GFX, 1)
   /\ cdis' = BumpN(cdis, 2)
@@ -260,17 +261,17 @@ Stop ==
   /\ ok' = FALSE
   /\ out' = [op |-> "stop", arg |-> NoneP, toks |-> ClearImages(2), res |-> ""]
   /\ taint' = FALSE
-  /\ UNCHANGED <<cv, wdis, last, ulast, same, wdt, nxt, free, dc>>
+  /\ UNCHANGED <<cv, wdis, last, ulast, same, wdt, nxt, free, dc, rs>>
 
 Clear ==
-  /\ started /\ ~dc
+  /\ started /\ ~dc /\ ~rs
   /\ T' = Fold(T, ClearImages(1), GFX, 1)
   /\ cdis' = BumpN(cdis, 1)
   /\ scr' = <<>>
   /\ ok' = FALSE
   /\ out' = [op |-> "clear", arg |-> NoneP, toks |-> ClearImages(1), res |-> ""]
   /\ taint' = FALSE
-  /\ UNCHANGED <<cv, wdis, started, last, ulast, same, wdt, nxt, free, dc>>
+  /\ UNCHANGED <<cv, wdis, started, last, ulast, same, wdt, nxt, free, dc, rs>>
 
 \* (values used more than once are bound through singleton sets: TLC evaluates them once)
 DoRedraw(p, bad, inv) ==
@@ -280,21 +281,22 @@ DoRedraw(p, bad, inv) ==
   \E cdis1 \in {IF d.delall THEN Bump(cdis) ELSE cdis} :
   \E wdis1 \in {[w \in Slots |-> IF w \in d.delw THEN Bump(wdis[w]) ELSE wdis[w]]} :
   \E sig \in {SigOf(wd, p, [c |-> cdis1, w |-> wdis1])} :
-  \E toks \in {<<SyncBegin>> \o DelToks(wd, d) \o (IF bad THEN <<>> ELSE DrawToks(wd, p, sig, scr)) \o <<SyncEnd>>} :
-  \E ulast1 \in {IF bad THEN ulast ELSE p} :
+  \E lost \in {rs} :   \* SIGWINCH pending: urwid returns before painting, the frame is dropped
+  \E toks \in {<<SyncBegin>> \o DelToks(wd, d) \o (IF bad \/ lost THEN <<>> ELSE DrawToks(wd, p, sig, scr)) \o <<SyncEnd>>} :
+  \E ulast1 \in {IF bad \/ lost THEN ulast ELSE p} :
   \E refd \in {Refd(p, ulast1, cv1)} :
      /\ T' = Fold(T, toks, GFX, 1)
      /\ cv' = cv1 /\ cdis' = cdis1 /\ wdis' = wdis1
-     /\ scr' = IF bad THEN scr ELSE sig
-     /\ last' = p /\ ulast' = ulast1 /\ same' = ~bad
+     /\ scr' = IF bad \/ lost THEN scr ELSE sig
+     /\ last' = p /\ ulast' = ulast1 /\ same' = (~bad /\ ~lost)
      /\ wdt' = Reaped(wdt, refd)
      /\ free' = free \cup Freed(wdt, refd)
      /\ taint' = (taint \/ bad)
-     /\ ok' = (~bad /\ ~taint)
+     /\ ok' = (~bad /\ ~lost /\ ~taint)
      /\ dc' = FALSE
-     /\ out' = [op |-> IF bad THEN "bad" ELSE "redraw", arg |-> [p EXCEPT !.d = p.d + 10 * inv], toks |-> toks,
+     /\ out' = [op |-> IF bad THEN "bad" ELSE IF lost THEN "lost" ELSE "redraw", arg |-> [p EXCEPT !.d = p.d + 10 * inv], toks |-> toks,
                 res |-> IF bad THEN "ValueError" ELSE ""]
-     /\ UNCHANGED <<started, nxt>>
+     /\ UNCHANGED <<started, nxt, rs>>
 
 \* inv = 0: widgets keep their cached canvases; inv = w: widget w was invalidated before rendering
 Redraw == \E p \in Params : started /\ Usable(p) /\ \E inv \in {0} \cup (IF WithInv THEN UsesOf[p] ELSE {}) : DoRedraw(p, FALSE, inv)
@@ -303,12 +305,12 @@ Redraw == \E p \in Params : started /\ Usable(p) /\ \E inv \in {0} \cup (IF With
 \* cviews diff and its deletions.  Two such failures in a row can bring a widget's disguise back to
 \* the value urwid cached (found by TLC), so the exactness claim is suspended (taint) until the
 \* next clear()/stop() drops urwid's line cache; bracketing is required regardless.
-RedrawBad == WithBad /\ ~dc /\ \E p \in Params : started /\ Usable(p) /\ DoRedraw(p, TRUE, 0)
+RedrawBad == WithBad /\ ~dc /\ ~rs /\ \E p \in Params : started /\ Usable(p) /\ DoRedraw(p, TRUE, 0)
 
 \* draw_screen with the very canvas object passed last: no cviews diff; urwid returns early if
 \* its cache belongs to that canvas, otherwise draws the rows that differ from its cache
 RedrawSame ==
-  /\ started /\ last # NoneP /\ ~dc
+  /\ started /\ last # NoneP /\ ~dc /\ ~rs
   /\ \E wd \in {WD} :
      \E quick \in {scr # <<>> /\ same} :
      \E sig \in {SigOf(wd, last, Dis)} :
@@ -321,13 +323,13 @@ RedrawSame ==
         /\ free' = free \cup Freed(wdt, refd)
         /\ ok' = IF quick THEN ok ELSE ~taint
         /\ out' = [op |-> "same", arg |-> last, toks |-> toks, res |-> ""]
-  /\ UNCHANGED <<cv, cdis, wdis, started, last, nxt, taint, dc>>
+  /\ UNCHANGED <<cv, cdis, wdis, started, last, nxt, taint, dc, rs>>
 
 \* cls: the widget is an instance of UrwidImage itself (0), of a subclass (1) or of a subclass of a
 \* subclass (2): the allocator is ONE counter and ONE free pool shared by all of them
 \* uz: the widget's format spec carries a z-index field (documented as ignored: the allocated index is used)
 NewWidget ==
-  Dyn /\ ~dc /\ \E w \in Slots, cls \in 0..2, uz \in 0..1 :
+  Dyn /\ ~dc /\ ~rs /\ \E w \in Slots, cls \in 0..2, uz \in 0..1 :
     /\ ~wdt[w].alive
     /\ IF StyleOf(w) # "kitty"
          THEN /\ wdt' = [wdt EXCEPT ![w] = [alive |-> TRUE, dropped |-> FALSE, z |-> 0]]
@@ -341,17 +343,17 @@ NewWidget ==
                   /\ nxt' = o.next /\ free' = o.free
                   /\ out' = [op |-> "new", arg |-> Par("w", w, o.z, cls, uz), toks |-> <<>>, res |-> ""]
     /\ wdis' = [wdis EXCEPT ![w] = 0]
-    /\ UNCHANGED <<T, cv, cdis, scr, started, last, ulast, same, ok, taint, dc>>
+    /\ UNCHANGED <<T, cv, cdis, scr, started, last, ulast, same, ok, taint, dc, rs>>
 
 DropWidget ==
-  Dyn /\ ~dc /\ \E w \in Slots :
+  Dyn /\ ~dc /\ ~rs /\ \E w \in Slots :
     /\ wdt[w].alive /\ ~wdt[w].dropped
     /\ \E wt \in {[wdt EXCEPT ![w].dropped = TRUE]} :
        \E refd \in {Refd(last, ulast, cv)} :
          /\ wdt' = Reaped(wt, refd)
          /\ free' = free \cup Freed(wt, refd)
     /\ out' = [op |-> "drop", arg |-> Par("w", w, 0, 0, 0), toks |-> <<>>, res |-> ""]
-    /\ UNCHANGED <<T, cv, cdis, wdis, scr, started, last, ulast, same, nxt, ok, taint, dc>>
+    /\ UNCHANGED <<T, cv, cdis, wdis, scr, started, last, ulast, same, nxt, ok, taint, dc, rs>>
 
 \* Direct user calls between redraws: screen.clear_images(now=...) deletes every image and changes the
 \* canvas-class disguise; screen.clear_images(widget, now=...) deletes the images of one kitty widget
@@ -363,16 +365,16 @@ DropWidget ==
 \* for the same reason the canvas on screen must be composite: a bare leaf widget rendered again
 \* yields its cached canvas, i.e. the same object).
 ClearImagesAll ==
-  /\ WithDC /\ started /\ ~dc /\ last # NoneP /\ ~TopLeafOf[last]
+  /\ WithDC /\ started /\ ~dc /\ ~rs /\ last # NoneP /\ ~TopLeafOf[last]
   /\ \E now \in BOOLEAN :
        /\ T' = Fold(T, ClearImages(1), GFX, 1)
        /\ cdis' = BumpN(cdis, 1)
        /\ out' = [op |-> "climg", arg |-> Par("c", 0, IF now THEN 1 ELSE 0, 0, 0), toks |-> ClearImages(1), res |-> ""]
   /\ dc' = TRUE /\ ok' = FALSE
-  /\ UNCHANGED <<cv, wdis, scr, started, last, ulast, same, wdt, nxt, free, taint>>
+  /\ UNCHANGED <<cv, wdis, scr, started, last, ulast, same, wdt, nxt, free, taint, rs>>
 
 ClearImagesOf ==
-  /\ WithDC /\ started /\ ~dc /\ last # NoneP /\ ~TopLeafOf[last] /\ Supported(Ident)
+  /\ WithDC /\ started /\ ~dc /\ ~rs /\ last # NoneP /\ ~TopLeafOf[last] /\ Supported(Ident)
   /\ \E w \in Slots, now \in BOOLEAN :
        /\ wdt[w].alive /\ ~wdt[w].dropped /\ StyleOf(w) = "kitty"
        /\ T' = Fold(T, <<KTok(XDelZ(wdt[w].z))>>, GFX, 1)
@@ -380,9 +382,26 @@ ClearImagesOf ==
        /\ out' = [op |-> "climg", arg |-> Par("c", w, IF now THEN 1 ELSE 0, 0, 0),
                   toks |-> <<KTok(XDelZ(wdt[w].z))>>, res |-> ""]
   /\ dc' = TRUE /\ ok' = FALSE
-  /\ UNCHANGED <<cv, cdis, scr, started, last, ulast, same, wdt, nxt, free, taint>>
+  /\ UNCHANGED <<cv, cdis, scr, started, last, ulast, same, wdt, nxt, free, taint, rs>>
 
-Next == ClearImagesAll \/ ClearImagesOf \/ Start \/ Stop \/ Clear \/ Redraw \/ RedrawSame \/ RedrawBad \/ NewWidget \/ DropWidget
+\* Environment: the terminal was resized (SIGWINCH).  urwid sets _resized and drops its line cache; every
+\* draw_screen until the resize is handled (get_input / parse_input resets the flag) returns before
+\* painting: the frame is dropped - but UrwidImageScreen has already recorded the canvas and run the
+\* cviews bookkeeping for it (deletions included).  When the size in cells did not change, the topmost
+\* widget's render returns the same cached canvas object, which is then painted in full (RedrawSame):
+\* the terminal must show exactly that canvas's images.
+Sigwinch ==
+  /\ WithWinch /\ started /\ ~dc /\ ~rs /\ last # NoneP
+  /\ rs' = TRUE /\ scr' = <<>> /\ ok' = FALSE
+  /\ out' = [op |-> "winch", arg |-> NoneP, toks |-> <<>>, res |-> ""]
+  /\ UNCHANGED <<T, cv, cdis, wdis, started, last, ulast, same, wdt, nxt, free, taint, dc>>
+
+ResizeHandled ==
+  /\ rs /\ rs' = FALSE
+  /\ out' = [op |-> "handled", arg |-> NoneP, toks |-> <<>>, res |-> ""]
+  /\ UNCHANGED <<T, cv, cdis, wdis, scr, started, last, ulast, same, wdt, nxt, free, ok, taint, dc>>
+
+Next == Sigwinch \/ ResizeHandled \/ ClearImagesAll \/ ClearImagesOf \/ Start \/ Stop \/ Clear \/ Redraw \/ RedrawSame \/ RedrawBad \/ NewWidget \/ DropWidget
 Spec == Init /\ [][Next]_vars
 
 (* ---------------------------------------------------------- properties *)
@@ -394,7 +413,7 @@ PlacementsExact == ok => Shown(T, GFX) = ImpliedNow
 \* with blend=False there: each strip first deletes what the cursor cell holds): no image line twice
 NoDuplicates == Ident # "konsole" => Len(T.pl) = Cardinality(Shown(T, GFX))
 
-IsRedrawOp == out.op \in {"redraw", "same", "bad"}
+IsRedrawOp == out.op \in {"redraw", "same", "bad", "lost"}
 OutputBracketed == IsRedrawOp => Bracketed(out.toks) /\ T.sync = 0
 DeletionsFirst == IsRedrawOp => DeletesFirst(out.toks, GFX)
 ClearedOnStartStopClear ==
@@ -419,20 +438,24 @@ NoOrphanZ == \A i \in DOMAIN T.pl : T.pl[i].proto = "kitty" => \E w \in LiveKitt
 (* ------------------------------------------------------------ TLC plumbing *)
 
 PlSet == Shown(T, GFX)
-View == <<PlSet, cv, cdis, wdis, scr, started, last, ulast, same, wdt, nxt, free, ok, taint, dc>>
+View == <<PlSet, cv, cdis, wdis, scr, started, last, ulast, same, wdt, nxt, free, ok, taint, dc, rs>>
 
 \* Edge dump for spec -> code replay (MC_UrwidScreen_edges.cfg): explored under a COARSE view
 \* (layout drawn last x started x urwid has a line cache x liveness of the widgets), so that every
 \* pair (layout on screen, next operation / next layout) is generated once.  The replay needs the
 \* operation sequences only - each real step is judged by Trace_UrwidScreen, not by the edge.
-CoarseObs == [last |-> last, started |-> started, cache |-> scr # <<>>, taint |-> taint, dc |-> dc,
+CoarseObs == [last |-> last, started |-> started, cache |-> scr # <<>>, taint |-> taint, dc |-> dc, rs |-> rs, same |-> same,
               live |-> [w \in Slots |-> IF ~wdt[w].alive THEN 0 ELSE IF wdt[w].dropped THEN 2 ELSE 1]]
 CoarseView == CoarseObs
 Dump == PrintT(<<"EDGE", ToJson([from |-> CoarseObs, op |-> [op |-> out'.op, arg |-> out'.arg, res |-> out'.res],
                                   to |-> CoarseObs'])>>)
 \* in the edge dump a direct clear is followed by a NEW canvas of the SAME layout (image lines
 \* textually unchanged: the case in which only the disguise can make urwid send them again)
-DumpL == (dc /\ out'.op = "redraw" => out'.arg = last) /\ Dump
+\* after a dropped frame only the handling of the resize, then the painting of the SAME canvas
+DumpL == /\ (dc /\ out'.op = "redraw" => out'.arg = last)
+         /\ (rs /\ ~same => out'.op = "handled")
+         /\ (~rs /\ ~same /\ last # NoneP /\ ~taint => out'.op = "same")
+         /\ Dump
 \* the layouts themselves, printed once: the driver builds the real urwid trees from these
 LayoutTable == \A p \in Params : PrintT(<<"LAYOUT", ToJson([p |-> p, lay |-> Lay(p)])>>)
 InitDump == Init /\ LayoutTable /\ PrintT(<<"INIT", ToJson(CoarseObs)>>)
